@@ -299,5 +299,13 @@ def r16_7(ctx):
     delegate(ctx, c02.r02_9, lambda c: "prompt tests quantify" in c)
 
 
+def r16_8(ctx):
+    """R16.8 every edit goes through the gate that keeps the model consistent with what a save writes (C17 R17.2): the y/n
+    keys apply a value only if it is assignable - an `n` forced onto the selected member of an untouched choice gives a
+    file whose reload reports clean although saving would write something else."""
+    from . import c17
+    from .common import delegate
+    delegate(ctx, c17.r17_2, lambda c: "set_sel_node_bool_val" in c or "assignable" in c)
+
 def rules():
-    return [("R16.7", r16_7, 3), ("R16.1", r16_1, 2), ("R16.2", r16_2, 11), ("R16.3", r16_3, 3), ("R16.4", r16_4, 2), ("R16.5", r16_5, 6), ("R16.6", r16_6, 4)]
+    return [("R16.8", r16_8, 2), ("R16.7", r16_7, 3), ("R16.1", r16_1, 2), ("R16.2", r16_2, 11), ("R16.3", r16_3, 3), ("R16.4", r16_4, 2), ("R16.5", r16_5, 6), ("R16.6", r16_6, 4)]
